@@ -1,9 +1,49 @@
-"""C14 - the VM heap never frees or loses count (DESIGN 5/C14).  (work in progress)"""
+"""C14 - the VM heap never frees or loses count (DESIGN 5/C14).
+
+Two families of obligations:
+  C14.heap.*   goto-instrument --dfcc on the REAL src/nanovm/heap.c (harness/heap_h.c, contracts/heap_contracts.h,
+               contracts/loops/heap.c.loops): vm_retain, vm_release + release_* helpers, array accessors, constructors.
+  C14.step.*   plain CBMC on the one-step VM harness (harness/vm_rc_h.c = harness/vm_step_h.c + entry h_c14):
+               reference-count conservation of one opcode over the step's footprint.
+"""
 import os, sys, copy
 sys.path.insert(0, os.path.dirname(os.path.abspath(__file__)))
 import vmstep
 
-META = {"level": "proof", "trusted_base": [], "assumptions": [], "undecided_part": ""}
+# opcodes / paths on which only  excess' >= excess  holds (a reference is dropped and its count kept: a LEAK, never a
+# dangling value).  ge_only opcodes: whole opcode; untyped: only when a heap value sits in an index / scalar operand position
+# (the step does not fail; the compiler never emits that shape).  Error paths (TRAP_ERROR) end the run and are not counted.
+GE_ONLY = {
+    "ARR_REMOVE": "the removed element is overwritten without vm_release (native: replay/replay_rc.c arr_remove_arr -> LeakSanitizer)",
+    "GC_RETAIN": "manual retain of the top value: the count grows without a new reference (by design; must be paired with GC_RELEASE)",
+}
+UNTYPED_LEAK = {
+    "ARR_GET": "index operand (top) popped and not released", "ARR_SET": "index operand (second) popped and not released",
+    "ARR_REMOVE": "index operand (top) popped and not released", "OPAQUE_VALID": "operand popped and not released",
+}
+
+META = {
+    "level": "proof",
+    "trusted_base": [
+        "contracts/heap_contracts.h (VAL_WF, contracts of the heap layer), contracts/loops/heap.c.loops",
+        "contracts/vm_contracts.h: the executable rendering of vm_release's contract used by the step harnesses (compared with the enforced contract in the report; differences: the stub asserts only the header of the argument - the enforced contract also needs the object's shape, element store and children; the stub does not free the element store, does not touch heap->stats / the intern table, and releases string children only)",
+        "contracts/modwf.h (MOD_WF of the running module, proved by C13.verify.*), harness/vm_step_h.c (state construction)",
+    ],
+    "assumptions": [
+        "GLUE (not machine-checked): induction over steps - every run is a sequence of steps from a state in which ref_count(o) >= indeg(o) for every object (assumed of the pre-state in C14.step.*, shown of the post-state for the footprint); induction over heap depth - vm_release's contract at depth d uses, for the children, its own header-level clauses (child view, same macro text) and VAL_WF of the children; that releasing the children at the other indices does not free the child at the ghost index is the census invariant",
+        "cycles are never collected (reference counting leaks cycles by design): 'released exactly once' is about release events, not about reclamation; a container that contains itself is not in any harness state",
+        "intern-table policy is not covered: vm_string_new / vm_string_concat / vm_string_substr are not under contract in this unit (interning hands out an extra count on an existing object); vm_release of a string removes it from the table (loop contract, memory safety and frame only); vm_heap_destroy frees interned strings whatever their count",
+        "hash maps are left out: vm_hashmap_* and release_hashmap are not under contract, VAL_WF in C14.heap.* excludes TAG_HASHMAP values; the HM_* opcodes are not in C14.step.* (open in C13 too)",
+        "TAG_FUNCTION values are closures (VAL_WF): vm_retain / vm_release would dereference a bare function index; no VM opcode builds one (codegen emits CLOSURE_NEW with zero captures for a function reference); struct field_names is NULL (nothing in the VM sets it)",
+        "allocation succeeds (framework-wide); element counts <= 2^20 (HEAP_MAX_ELEMS), intern table <= 1024 entries in C14.heap.*; reference counts below 2^31 in the step harnesses (no wrap of the 32-bit count)",
+        "C14.heap.release.K / C14.heap.helper.K: the recursion is cut at the release_* helper (CBMC 6.11 cannot check and replace one function; a replaced call with two frees targets hangs symbolic execution; an ASSUMED __CPROVER_was_freed is rejected): vm_release is proved with the helper replaced by its contract (the frees clause lets the object die, the fact that the helper ran is a ghost counter), the helper is proved with the recursive calls replaced by the child view (deallocation of a child whose count reaches 0 is not modelled: loop contracts have no frees clause)",
+        "C14.step.*: stack depth pinned (7 of capacity 8; .d1/.d2 = operand underflow, thorough tier): stack growth inside the step (realloc) is not covered; aliasing: slot-slot and slot-LOC in every obligation, element-slot in the .elem obligations (shapes pinned); container elements are leaves (strings / scalars)",
+        "opcodes not covered by C14.step.* : those open in C13 (ARR_SLICE, ARR_PUSH, HM_*, ADD/SUB/MUL/DIV, CALL*, RET, LOAD/STORE_GLOBAL, LOAD/STORE_UPVALUE), the allocating opcodes (PUSH_STR, STR_CONCAT, STR_SUBSTR, STR_FROM_*, CAST_STRING, ARR_NEW, ARR_LITERAL, STRUCT_NEW/LITERAL, UNION_CONSTRUCT, TUPLE_NEW, CLOSURE_NEW), STR_CHAR_AT (strlen: timeout), CALL_EXTERN / CALL_MODULE; vm_destroy (C14.destroy) is not built",
+        "only excess' >= excess (leak, no dangling value): " + "; ".join("%s: %s" % kv for kv in GE_ONLY.items()) +
+        "; on ill-typed operands that do not fail the step: " + "; ".join("%s: %s" % kv for kv in UNTYPED_LEAK.items()),
+    ],
+    "undecided_part": "that every program's values stay within the materialised footprint shapes is the frame argument of DESIGN 4.1; the 'does not grow without bound' half holds only for the opcodes with the equality (no-leak) clause and not for programs using ARR_REMOVE, cycles or interned strings",
+}
 HEAP = "harness/heap_h.c"
 RC = "harness/vm_rc_h.c"
 
@@ -11,7 +51,7 @@ SC, ST, AR, SU, UN, TU, CL = 1, 2, 4, 8, 16, 32, 64
 BASE = SC | ST | AR
 CRC, CDEG, CFREE, CALIAS = 1, 2, 4, 8
 ALL3 = CRC | CDEG | CFREE
-# opcode -> extra slot kinds, cover mask, extra defines, ge_only
+# opcode -> extra slot kinds (extra / mask), cover mask (cov), extra defines (defs), extra cbmc flags (checks), bound label
 STEP_OPS = {
     "DUP": dict(cov=CRC | CDEG),
     "POP": dict(cov=ALL3),
@@ -19,7 +59,7 @@ STEP_OPS = {
     # the addressed local below the window is any of the 7 kinds (vm_step_h.c); the window slots: scalars or strings
     "LOAD_LOCAL": dict(cov=CRC | CDEG, mask=SC | ST), "STORE_LOCAL": dict(cov=ALL3, mask=SC | ST),
     "ARR_GET": dict(cov=ALL3), "ARR_SET": dict(cov=ALL3), "ARR_POP": dict(cov=0), "ARR_LEN": dict(cov=ALL3),
-    "ARR_REMOVE": dict(cov=CDEG, defs={"VERIF_ARR_CAP": 8}, bound="array capacity <= 8", ge_only=True),
+    "ARR_REMOVE": dict(cov=CDEG, defs={"VERIF_ARR_CAP": 8}, bound="array capacity <= 8"),
     "STRUCT_GET": dict(extra=SU, cov=ALL3), "STRUCT_SET": dict(extra=SU, cov=ALL3),
     "TUPLE_GET": dict(extra=TU, cov=ALL3), "UNION_FIELD": dict(extra=UN, cov=ALL3), "UNION_TAG": dict(extra=UN, cov=ALL3),
     "EQ": dict(cov=ALL3), "NE": dict(cov=ALL3), "NOT": dict(cov=ALL3),
@@ -32,8 +72,8 @@ STEP_OPS = {
     "LT": dict(cov=ALL3), "LE": dict(cov=ALL3), "GT": dict(cov=ALL3), "GE": dict(cov=ALL3),
     "JMP_FALSE": dict(cov=ALL3, defs={"VERIF_TARGET": 13}, bound="jump target pinned to the next instruction"),
     "MATCH_TAG": dict(extra=UN, cov=0, defs={"VERIF_TARGET": 15}, bound="jump target pinned to the next instruction"),
-    "GC_RELEASE": dict(cov=ALL3), "GC_RETAIN": dict(cov=CRC, ge_only=True),
-    "STR_CONTAINS": dict(cov=ALL3), "STR_CHAR_AT": dict(cov=ALL3),
+    "GC_RELEASE": dict(cov=ALL3), "GC_RETAIN": dict(cov=CRC),
+    "STR_CONTAINS": dict(cov=ALL3),
     "CAST_INT": dict(cov=ALL3, checks=["--no-signed-overflow-check"]), "CAST_FLOAT": dict(cov=ALL3, checks=["--no-signed-overflow-check"]),
     "OPAQUE_VALID": dict(cov=0), "NEG": dict(cov=0, checks=["--no-signed-overflow-check"]),
 }
@@ -49,30 +89,57 @@ ELEM_ALIAS = {
 }
 
 
+# measured > ~45 s: thorough tier only
+STEP_THOROUGH = {"STORE_LOCAL", "NEG", "ARR_SET", "LOAD_LOCAL"}
+ELEM_THOROUGH = {"TUPLE_GET", "ARR_GET", "STRUCT_GET", "UNION_FIELD", "ARR_REMOVE"}
+
+
 def step_obligations():
     obs = []
     for op, cfg in STEP_OPS.items():
-        o = vmstep.step("C14", "C14.step." + op, "h_c14", op, harness=RC, must_have=[r"C14\.step\.safety", r"COVER"], timeout=420,
-                        flags=["--no-pointer-primitive-check"])
+        o = vmstep.step("C14", "C14.step." + op, "h_c14", op, harness=RC, must_have=[r"C14\.step\.safety", r"C14\.step\.dangling", r"COVER"],
+                        timeout=420, flags=["--no-pointer-primitive-check"], witness={"replayer": "rc"})
         m = cfg.get("mask", BASE) | cfg.get("extra", 0)
         o["defines"].update({"VERIF_M0": m, "VERIF_M1": m, "VERIF_M2": m, "VERIF_STACK_SIZE": 7,
                              "VERIF_RC_COVERS": cfg.get("cov", 0) | CALIAS})
         o["defines"].update(cfg.get("defs", {}))
-        if cfg.get("ge_only"):
-            o["defines"]["VERIF_RC_GE_ONLY"] = 1
+        if op in GE_ONLY:
+            o["defines"]["VERIF_RC_GE_ONLY"] = 1        # no equality clause; a cover point shows the excess really grows
         else:
             o["must_have"].append(r"C14\.step\.noleak")
+        if op in UNTYPED_LEAK:
+            o["defines"]["VERIF_RC_UNTYPED_LEAK"] = 1   # cover point: the ill-typed leak path exists
         if cfg.get("checks"):
             o["flags"] = o["flags"] + cfg["checks"]
         if cfg.get("bound"):
             o["strength"] = "B(%s)" % cfg["bound"]
+        if op in STEP_THOROUGH:
+            o["tier"] = "thorough"
         obs.append(o)
         if op in ELEM_ALIAS:
             ec, es, (m0, m1, m2) = ELEM_ALIAS[op]
             a = copy.deepcopy(o)
             a["id"] += ".elem"
             a["defines"].update({"VERIF_M0": m0, "VERIF_M1": m1, "VERIF_M2": m2, "VERIF_RC_EC": ec, "VERIF_RC_ES": es})
+            a["defines"].pop("VERIF_RC_UNTYPED_LEAK", None)          # index operands are ints in these shapes
+            a["tier"] = "thorough" if op in ELEM_THOROUGH else "quick"
+            if op == "TUPLE_GET":
+                a["mem_gb"] = 24
             obs.append(a)
+        # operand underflow: the same step with only one / two slots on the stack (thorough tier)
+        for depth in (1, 2):
+            u = copy.deepcopy(o)
+            u["id"] += ".d%d" % depth
+            u["defines"]["VERIF_STACK_SIZE"] = depth
+            u["defines"]["VERIF_RC_COVERS"] = 0
+            u["defines"]["VERIF_RC_UNDERFLOW"] = 1
+            u["defines"].pop("VERIF_RC_GE_ONLY", None)
+            u["defines"].pop("VERIF_RC_UNTYPED_LEAK", None)
+            if op in GE_ONLY and r"C14\.step\.noleak" not in u["must_have"]:
+                u["defines"]["VERIF_RC_GE_ONLY"] = 1
+                u["defines"]["VERIF_RC_NOLEAKCOVER"] = 1
+            u["tier"] = "thorough"
+            obs.append(u)
     return obs
 
 
@@ -95,7 +162,7 @@ def release_obligations():
             gi += ["--remove-function-body", f]
         obs.append(dict(id="C14.heap.release." + nm, prop="C14", harness=HEAP, entry="h_release", annotate=HANN,
                         defines={"VERIF_HKIND": k}, gi_flags=gi, enforce="vm_release", replace=[helper[nm]] if nm in helper else [],
-                        loops=True, unwind=5, strength="X", functions=["vm_release"],
+                        loops=True, unwind=6, strength="X", functions=["vm_release"],
                         timeout=240, flags=["--no-pointer-primitive-check"], must_have=[r"vm_release\.postcondition", r"COVER"], min_checks=30))
         if nm in helper:
             obs.append(dict(id="C14.heap.helper." + nm, prop="C14", harness=HEAP, entry="h_helper", annotate=HANN,
